@@ -419,10 +419,32 @@ def run(E: Engine, rep: Report, tier: str) -> dict:
                         idioms.setdefault(kind, []).append(E.where(f, l.node))
     n_sites = sum(len(v) for v in idioms.values())
     major = max(idioms, key=lambda k: len(idioms[k])) if idioms else None
+    # the reference is the sampling grid itself (Hamiltonian: np.arange(n) / 1000): "Full" evaluation times are grid
+    # points merged with the converted total duration, so every conversion must be bit-identical with the grid's
+    hinit = E.fn("pulser_simulation.hamiltonian.Hamiltonian.__init__")
+    grid_kind = None
+    for l in _S2(E, hinit, inline=False).log:
+        for t in (l.value, l.target):
+            for x in sym.subterms(t) if t is not None else ():
+                if x[0] == "mul" and any(y[0] == "call" and y[1][0] == "attr" and y[1][2] == "arange" for y in x[1:]):
+                    if ("inv", ("const", 1000)) in x[1:] or ("inv", ("const", 1000.0)) in x[1:]:
+                        grid_kind = "duration / 1000"
+                    elif any(sym.is_num(y) and abs(y[1] - 1e-3) < 1e-18 for y in x[1:]):
+                        grid_kind = "duration * 1e-3"
+    if grid_kind is None:
+        raise AnalysisError("anchor: the sampling grid (np.arange(...) / 1000) of Hamiltonian.__init__ was not found")
+    rep.ok("UNIT", f"ns-to-us|sampling-grid|{grid_kind}", f"the sampling grid converts ns to us as `{grid_kind}`: the reference for every other site", E.where(hinit))
+    major = grid_kind
+    idioms.setdefault(major, [])
     for kind, sites in sorted(idioms.items()):
         for wsite in sorted(set(sites)):
-            rep.check(kind == major, "UNIT", f"ns-to-us|{kind.split('  ')[0]}|{wsite.split(' ')[-1].strip('()')}", f"total duration converted as `{kind}` like the other {len(idioms[major]) - 1} site(s)",
-                      f"the total duration is converted to microseconds as `{kind}` here but as `{major}` at {sorted(set(idioms[major]))[:3]}: the two differ in the last bit for many durations, so a time equal to the end of the sequence at one site is beyond it (or not exactly 1.0 relative) at the other -- e.g. an observable evaluated at relative time 1.0 is refused", wsite)
+            if kind.startswith("t / duration * 1e3"):
+                # a relative time t / (duration in us): the normal form cannot tell t / (d / 1000) from t / d * 1e3
+                # (both read t * 1000 / d); relative times are matched with a half-step tolerance, so this is not decided
+                rep.excepted("UNIT", f"ns-to-us|relative-time|{wsite.split(' ')[-1].strip('()')}", "relative time t / (total duration in us): the two spellings are one term in the normal form; matched with a tolerance downstream", wsite)
+                continue
+            rep.check(kind == major, "UNIT", f"ns-to-us|{kind.split('  ')[0]}|{wsite.split(' ')[-1].strip('()')}", f"total duration converted as `{kind}`, like the sampling grid",
+                      f"the total duration is converted to microseconds as `{kind}` here but the sampling grid (and {len(idioms[major])} other site(s)) uses `{major}`: the two differ in the last bit for many durations, so a time equal to the end of the sequence at one site is beyond it (or not exactly 1.0 relative) at the other -- e.g. an observable evaluated at relative time 1.0 is refused", wsite)
     if n_sites < 3:
         rep.error(f"only {n_sites} ns->us conversions of the total duration found in the emulator (expected >= 3)")
     return {"string_vs_array_comparisons": n_cmp, "accumulations": n_w, "basis_name_tests": n_sfx, "unit_conversions": {k: len(v) for k, v in idioms.items()}}
